@@ -395,7 +395,10 @@ func genC02(t *rapid.T) c02Case {
 		var prefix string
 		if rapid.IntRange(0, 5).Draw(t, "unk") == 0 {
 			prefix = rapid.StringMatching("[a-z]{1,12}").Draw(t, "unkprefix")
-			switch rapid.IntRange(0, 3).Draw(t, "nearprefix") {
+			switch rapid.IntRange(0, 4).Draw(t, "nearprefix") {
+			case 4: // no prefix at all went into the checksum (simnet's SLP prefix is the empty string)
+				body := refCashEncodeSymbols("", genCashSymbols(t))
+				return c02Case{S: rapid.SampledFrom([]string{"", ":"}).Draw(t, "emptyprefixsep") + body, Class: "A"}
 			case 0: // a known prefix with something appended
 				prefix = genKnownPrefix(t) + rapid.StringMatching("[a-z]{1,4}").Draw(t, "ext")
 			case 1: // a known prefix cut short
